@@ -1,7 +1,7 @@
 """C12 Verify accepts exactly what decrypt accepts; writes nothing; inputs stay intact."""
 from .common import combined
 LEVEL = 'other'
-RULES = ('R12.a', 'R12.b', 'R12.c', 'R12.d', 'R12.e', 'R12.f', 'R02.f', 'R04.g')
+RULES = ('R12.a', 'R12.b', 'R12.c', 'R12.d', 'R12.e', 'R12.f', 'R12.g', 'R02.f', 'R04.g')
 
 
 def run(prog, rec, tier):
@@ -9,6 +9,7 @@ def run(prog, rec, tier):
     C = cli_rules.CliRules(prog, rec)
     C.parser()
     C.input_mode()
+    C.interactive()
     combined(prog, rec, tier, RULES, driver=('reader',), pipe=True,
              explanation='Sibling agreement: on every abstract path of execute_verify and execute_decrypt the result is exactly '
              '(shared verification step returned 0); both reach that step with the same stream reads and get the same outcome set; '
@@ -16,3 +17,4 @@ def run(prog, rec, tier):
              'path plus a non-empty suffix (so the "wb+" open can never truncate the input).')
     C.exit_mapping()      # R12.f uses what the reader analysis found out about the verification step
     rec.obls = [o for o in rec.obls if o.rule in RULES]
+    rec.instances = {k: v for k, v in rec.instances.items() if any(k.startswith(r) for r in RULES)}
